@@ -46,10 +46,10 @@ async def settle():
     for _ in range(3): await asyncio.sleep(0)
 
 
-async def run_seq(ports, acts):
+async def run_seq(ports, acts, via_context=False):
     got = []; b = SwitcherBridge(lambda d: got.append(d), list(ports)); foreign = {}
     others = [SwitcherBridge(lambda d: None, list(ports)), SwitcherBridge(lambda d: None, list(ports))]    # same ports, never started
-    tx = socket.socket(socket.AF_INET, socket.SOCK_DGRAM); out = ""; late = 0; stopped_at = None; odd = []
+    tx = socket.socket(socket.AF_INET, socket.SOCK_DGRAM); out = ""; late = 0; stopped_at = None; odd = []; leaves = 0
     try:
         for k, i in acts:
             if k == 5:
@@ -62,12 +62,17 @@ async def run_seq(ports, acts):
             stopped_at = None
             o = "."; p = ports[i] if i < len(ports) else None
             if k == 0:
-                try: await asyncio.wait_for(b.start(), PATIENCE); o = "s"
+                try: await asyncio.wait_for(b.__aenter__() if via_context else b.start(), PATIENCE); o = "s"        # entering `async with bridge:` is start()
                 except OSError: o = "!"
                 except asyncio.TimeoutError: out += "T|"; break           # start() never returned: the rest of the sequence is not run
                 except Exception as e: o = "E"; odd.append("start() raised " + type(e).__name__)        # not the error of the failed bind
             elif k == 1:
-                try: await asyncio.wait_for(b.stop(), PATIENCE); stopped_at = len(got)
+                try:
+                    if via_context:          # leaving the block, normally or (every other time) through an exception raised in the body, is stop()
+                        leaves += 1; exc = KeyError("body") if leaves % 2 == 0 else None
+                        await asyncio.wait_for(b.__aexit__(type(exc) if exc else None, exc, exc.__traceback__ if exc else None), PATIENCE)
+                    else: await asyncio.wait_for(b.stop(), PATIENCE)
+                    stopped_at = len(got)
                 except asyncio.TimeoutError: out += "T|"; break           # stop() never returned
                 except Exception as e: o = "E"; odd.append("stop() raised " + type(e).__name__); stopped_at = len(got)
             elif k == 2:
@@ -150,12 +155,12 @@ def spec_judge(n_ports, text, acts=None):
     return "ok"
 
 
-def run_sequences(out, stream, n_ports, seqs):
+def run_sequences(out, stream, n_ports, seqs, via_context=False):
     async def go():
         ports = world.free_udp_ports(n_ports); res = []
         for s in seqs:
             if STUCK[0] >= 3: res.append(None); continue        # three sequences already ended in a start()/stop() that never returns: enough to report
-            t = await run_seq(ports, s); res.append(t)
+            t = await run_seq(ports, s, via_context); res.append(t)
             if "T|" in t: STUCK[0] += 1
         return res
     io = asyncio.run(go())
@@ -180,7 +185,7 @@ def run_sequences(out, stream, n_ports, seqs):
         async def again():
             res = {}
             for k in suspect[:40]:
-                ports = world.free_udp_ports(n_ports); res[k] = await run_seq(ports, seqs[k])
+                ports = world.free_udp_ports(n_ports); res[k] = await run_seq(ports, seqs[k], via_context)
             return res
         for k, t in asyncio.run(again()).items():
             if t != io[k]:
@@ -255,6 +260,11 @@ def run(tier, rnd, out):
              [(2, 1), (8, 0), (1, 0), (3, 1), (0, 0), (4, 1)]]
     run_sequences(out, "start-cancelled-then-stop", 2, seqs8)
     run_sequences(out, "start-cancelled-then-stop", 3, [[(8, 0), (1, 0), (4, 0), (4, 1), (4, 2)], [(8, 0), (1, 0), (0, 0), (4, 2), (1, 0)]])
+    # the same bridge driven through its async context manager: entering is start(), leaving (normally or through an exception of the body) is stop()
+    seqs9 = [list(s_) for L in (1, 2) for s_ in itertools.product(alphabet, repeat=L)] + [[rnd.choice(alphabet) for _ in range(rnd.randrange(3, 10))] for _ in range(80 if tier == "quick" else 1500)]
+    seqs9 += [[(2, 0), (0, 0), (3, 0), (0, 0), (4, 0), (4, 1), (1, 0)], [(2, 1), (0, 0), (3, 1), (0, 0), (1, 0), (0, 0), (4, 1), (1, 0)], [(0, 0), (1, 0), (0, 0), (1, 0), (0, 0), (4, 0), (1, 0), (4, 0)],
+              [(0, 0), (0, 0), (4, 0), (1, 0), (4, 0), (0, 0), (4, 1)]]
+    run_sequences(out, "sequences-through-the-async-context-manager", 2, seqs9, via_context=True)
     got = asyncio.run(bad_port_list())
     lib.differential(out, "port-list-with-an-impossible-port", [{"ports": "two free ports and 200003"}, {"ports": "two free ports and -1"}], got, None,
                      ["start raised; running=False; first ports free=True"] * 2, lambda c: "start() on %s" % c["ports"])
@@ -267,4 +277,4 @@ def run(tier, rnd, out):
 
 def replay(rp, out):
     c = rp["input"]
-    if "acts" in c: run_sequences(out, rp.get("stream", "replay"), c["ports"], [[tuple(a) for a in c["acts"]]])
+    if "acts" in c: run_sequences(out, rp.get("stream", "replay"), c["ports"], [[tuple(a) for a in c["acts"]]], via_context="context-manager" in (rp.get("stream") or ""))
